@@ -373,7 +373,8 @@ type DestScript struct {
 	Name string
 	// AckMenu is the answer menu of every ack gate. Answers: "ok" (all records of the request acked), "nack" (all
 	// rejected), "n:<bits>" (bit i set = record i rejected), "err" (the plugin's Run fails), and the reply-shape
-	// answers of C09: "wrongpos", "extra", "none", "reorder", "dup", "empty" (responses without acks), "chunkextra".
+	// answers of C09: "wrongpos", "extra", "none", "reorder", "dup", "empty" (responses without acks), "chunkextra", "skip"
+	// (never confirmed, held acks of earlier writes stay held).
 	AckMenu []string
 	// MenuFor overrides AckMenu per request (k = ordinal of the request, n = records in it).
 	MenuFor func(k, n int) []string
@@ -533,6 +534,11 @@ func (d *Dest) Run(ctx context.Context, stream pconnector.DestinationRunStream) 
 		if a == "err" {
 			d.W.Log(d.S.Name, "runerr", -1, "")
 			return cerrors.Errorf("%s: destination failed", d.S.Name)
+		}
+		if a == "skip" {
+			// the plugin never confirms this write, and says nothing now: acks it holds back for earlier writes stay held, so
+			// a later response can confirm the writes around this one ([ack(k-1), ack(k+1)])
+			continue
 		}
 		resp := pconnector.DestinationRunResponse{Acks: held}
 		logs := heldLog
